@@ -38,9 +38,12 @@ def run_one(args):
         open(p, "w").write(s)
     if TESTS:
         t0 = time.time()
-        r = subprocess.run(["cargo", "test", "--workspace", "--offline", "--no-fail-fast", "-q"], cwd=d,
-                           env=dict(os.environ, CARGO_TARGET_DIR=os.path.join(SCRATCH, f"slot{slot}", "testtarget"), CARGO_NET_OFFLINE="true"),
-                           capture_output=True, text=True)
+        try:
+            r = subprocess.run(["timeout", "-k", "5", "300", "cargo", "test", "--workspace", "--offline", "--no-fail-fast", "-q"], cwd=d,
+                               env=dict(os.environ, CARGO_TARGET_DIR=os.path.join(SCRATCH, f"slot{slot}", "testtarget"), CARGO_NET_OFFLINE="true"),
+                               capture_output=True, text=True)
+        except Exception as e:
+            r = subprocess.CompletedProcess([], 1, "", str(e))
         res["repo_tests_pass"] = r.returncode == 0
         res["repo_tests_secs"] = round(time.time() - t0, 1)
         if r.returncode != 0:
